@@ -79,6 +79,11 @@ func runC11(c *Ctx) {
 	c.Rng = c.Rng.Fork() // core's seeds s and s+1 yield the same stream shifted by one draw; a fork is mixed
 	edfRegister()
 	cfgs := edfConfigs()
+	for _, cfg := range cfgs {
+		if cfg.SentinelFault != "" {
+			r.Violation("C11/sentinel-identity", "negotiated error cache: "+cfg.SentinelFault, map[string]interface{}{"config": cfg.Name})
+		}
+	}
 	pre := edfPreamble()
 	r.Rule = "random Go type (depth <= 6 over primitives, framework identifiers, time, error, any, registered named/struct/marshaler types) then a random value of it, " +
 		"lengths biased to 0/1/255/256/4095/4096/32767/32768/65533..65536, nil vs empty at every level, under 14 option configurations (atom/reg/err caches, mappings, Cache); " +
